@@ -427,6 +427,7 @@ var quickPairs = [][]int{
 	{opEmptyAdd, opCompactAll},
 	{opCompactFirstTwo, opClose},
 	{opPreparedRange, opAdd},
+	{opCompactFirstTwo, opClean},
 }
 
 // pickPair returns an operation pair and the context bound to explore it with:
@@ -443,7 +444,7 @@ func pickPair(extraPre int) ([]int, int) {
 }
 
 // Harness_C04_pairs: two processes, one operation each: no lost, altered or phantom update; Add succeeds iff committed; only lock failures.
-// bounds: 2 processes (own handles, opened before either runs); operation pairs: Add/Add, CompactAll/Add, CompactAll/Add+auto-compaction, compactRange(0,1)/CompactAll, Add/Clean, CompactAll/reload, Add/Close, Add/open+Add, open+Add/open+Add, CompactAll/open+Add, compactRange(top two)/CompactAll (open+Add: the handle is opened inside the process, so it may be fresh or stale) two-table Addition/open+Add, empty Add/CompactAll, compactRange(0,1)/Close, prepared [next,next+1] table with one unchanged retry/Add (thorough: all 144 pairs of the 12 operations); transaction payload byte arbitrary (symbolic); initial stack of 3 tables; every schedule with <= 2 preemptions at visible filesystem steps (thorough: the listed pairs with <= 3, all 144 pairs with <= 2); sha1
+// bounds: 2 processes (own handles, opened before either runs); operation pairs: Add/Add, CompactAll/Add, CompactAll/Add+auto-compaction, compactRange(0,1)/CompactAll, Add/Clean, CompactAll/reload, Add/Close, Add/open+Add, open+Add/open+Add, CompactAll/open+Add, compactRange(top two)/CompactAll (open+Add: the handle is opened inside the process, so it may be fresh or stale) two-table Addition/open+Add, empty Add/CompactAll, compactRange(0,1)/Close, prepared [next,next+1] table with one unchanged retry/Add, compactRange(0,1)/Clean (thorough: all 144 pairs of the 12 operations); transaction payload byte arbitrary (symbolic); initial stack of 3 tables; every schedule with <= 2 preemptions at visible filesystem steps (thorough: the listed pairs with <= 3, all 144 pairs with <= 2); sha1
 // covers: done
 func Harness_C04_pairs() {
 	ops, pre := pickPair(0)
